@@ -167,7 +167,10 @@ class BasePlugin(object):
             return False           # exactly a listed finding, behaviour as recorded
         return True
 
-    def minimise(self, case, known_mask, want, rounds=12):
+    def minimise(self, case, known_mask, want, rounds=12, like=None):
+        """like: the flags of the case being shrunk - a predicate failure that agrees with the
+        model is only replaced by candidates that also agree with the model (and vice versa), so
+        that shrinking does not drift to a different kind of failure"""
         cur = case
         for _ in range(rounds):
             cands = []
@@ -183,7 +186,8 @@ class BasePlugin(object):
                 break
             nxt = None
             for c, o, fl in ev:
-                if self.fails(fl, known_mask, want):
+                if self.fails(fl, known_mask, want) and \
+                        (like is None or want != 'p' or (fl & 1) == (like & 1)):
                     nxt = c
                     break
             if nxt is None:
@@ -252,7 +256,7 @@ class BasePlugin(object):
                     samples.append(self.describe(c, o))
         # violations: shrink, explain
         for c, o, fl in viol_cases[:3]:
-            small = self.minimise(c, known_mask, 'p')
+            small = self.minimise(c, known_mask, 'p', like=fl)
             so = self.run_impl(small)
             result['violations'].append(dict(
                 self.describe(small, so), failing_clause='property predicate false on the '
